@@ -48,8 +48,12 @@ func runC15(c *engine.Ctx, tier string) {
 			drainOnExit(c, "C15.11/"+short, rel, 2)
 		}
 		dispatcherLives(c, "C15.13/"+short, rel, 1)
+		if rel == pkgStoreCfgV2 || rel == pkgStoreCfgV3 {
+			refusedLeavesNoTrace(c, "C15.16/"+short, rel)
+		}
 		if rel != pkgStorePropV2 {
 			publishedChannelClosed(c, "C15.14/"+short, rel, 1)
+			dispatcherContext(c, "C15.15/"+short, rel, 1)
 		}
 	}
 }
@@ -365,6 +369,112 @@ func channelTypestate(c *engine.Ctx, id, rel string) {
 			o.Site("")
 			o.Eval(1)
 		}
+	}
+}
+
+// refusedLeavesNoTrace: a write method whose version-guarded (or insert-only) write of the record can be
+// refused must not have written anything else before it. The configuration stores keep their value maps
+// in primitives of their own; written first, they carry a refused writer's values.
+func refusedLeavesNoTrace(c *engine.Ctx, id, rel string) {
+	o := c.Custom(id, "K-order(first effect)", "in Create/Update/UpdateStatus of the configuration store no write to another primitive (the store() of a value map) precedes the conditional write of the record (Insert, or Update with IfVersion)",
+		"two writers that read the same version cannot both take effect: the loser's Update returns an error, and must also leave what the winner wrote")
+	defer o.Done(3)
+	paths, err := storePaths(c, rel)
+	if err != nil {
+		o.Undecided(rel, err.Error())
+		return
+	}
+	reported := map[string]bool{}
+	seen := map[string]bool{}
+	for _, p := range paths {
+		if p.Lit != nil {
+			continue
+		}
+		name := p.Root.Name()
+		m := name[strings.LastIndex(name, ".")+1:]
+		if !strings.Contains(name, "configurationStore.") || (m != "Create" && m != "Update" && m != "UpdateStatus") {
+			continue
+		}
+		valuesAt, recordAt := -1, -1
+		for i := range p.Events {
+			e := &p.Events[i]
+			if e.Kind != engine.EvCall {
+				continue
+			}
+			if strings.HasSuffix(e.CalleeName, "configurationStore.store") && valuesAt < 0 {
+				valuesAt = i
+			}
+			if (e.CalleeName == "map.Map.Update" || e.CalleeName == "map.Map.Insert") && recordAt < 0 {
+				recordAt = i
+			}
+		}
+		if recordAt < 0 {
+			continue
+		}
+		if !seen[name] {
+			seen[name] = true
+			o.Site(name)
+		}
+		o.Eval(1)
+		if valuesAt >= 0 && valuesAt < recordAt {
+			key := name + "|value map written before the conditional write of the record"
+			if !reported[key] {
+				reported[key] = true
+				o.Fail(&engine.Violation{Key: key, Pos: c.P.Pos(p.Events[valuesAt].Pos), Func: name,
+					Msg: "the value map is written (store()) before the conditional write of the record at " + c.P.Pos(p.Events[recordAt].Pos) + ": when that write is refused the values of the refused writer stay in the store"})
+			}
+		}
+	}
+}
+
+// dispatcherContext: the event stream that feeds the store's shared dispatcher lives as long as the
+// store, not as long as the request that happened to open it: it is opened with context.Background().
+// Opened with a caller's context, the dispatcher ends when that caller's request ends and every other
+// watcher of the store stops receiving events, although writes still succeed.
+func dispatcherContext(c *engine.Ctx, id, rel string, min int) {
+	o := c.Custom(id, "K-args(dispatcher context)", "in a store with a shared watcher registry every call of <primitive>.Events(ctx, …) passes context.Background() — not a parameter, not a derived context",
+		"cancelling a watch, or the end of the request that first touched a log, must not disturb the store or the other watchers")
+	defer o.Done(min)
+	pkg := c.P.Pkg(rel)
+	if pkg == nil {
+		o.Undecided(rel, "package not found")
+		return
+	}
+	info := pkg.TypesInfo
+	for _, fi := range c.P.FuncsOf(pkg) {
+		if fi.Decl == nil || fi.Decl.Body == nil {
+			continue
+		}
+		ast.Inspect(fi.Decl.Body, func(n ast.Node) bool {
+			call, ok := n.(*ast.CallExpr)
+			if !ok || len(call.Args) < 1 {
+				return true
+			}
+			sel, ok := call.Fun.(*ast.SelectorExpr)
+			if !ok || sel.Sel.Name != "Events" {
+				return true
+			}
+			if t := info.TypeOf(sel.X); t == nil || !strings.Contains(t.String(), "github.com/atomix/go-sdk/pkg/primitive/") {
+				return true
+			}
+			o.Site(c.P.Pos(call.Pos()) + " " + types.ExprString(call) + " in " + fi.Name())
+			o.Eval(1)
+			okBg := false
+			if a, ok := ast.Unparen(call.Args[0]).(*ast.CallExpr); ok && len(a.Args) == 0 {
+				if s2, ok := a.Fun.(*ast.SelectorExpr); ok && s2.Sel.Name == "Background" {
+					if idn, ok := s2.X.(*ast.Ident); ok {
+						if pn, ok := info.Uses[idn].(*types.PkgName); ok && (pn.Imported().Path() == "context" || pn.Imported().Path() == "golang.org/x/net/context") {
+							okBg = true
+						}
+					}
+				}
+			}
+			if !okBg {
+				o.Fail(&engine.Violation{Key: fi.Name() + "|dispatcher stream opened with " + types.ExprString(call.Args[0]), Pos: c.P.Pos(call.Pos()), Func: fi.Name(),
+					Msg: "the event stream of the shared dispatcher is opened with " + types.ExprString(call.Args[0]) + ": when that context ends the dispatcher ends, and no watcher of the store sees later updates"})
+			}
+			return true
+		})
 	}
 }
 
